@@ -77,21 +77,45 @@ class Locksets:
             lid = 'expr %s in %s' % (f.text(n)[:40], short(f.q))
         return self.alias.get(lid, lid)
 
-    def guards_in(self, f, stmt):
-        """Lock ids acquired by guard declarations directly in statement stmt (a DeclStmt)."""
+    def guards_in(self, f, stmt, at=None):
+        """Lock ids acquired by guard declarations directly in statement stmt (a DeclStmt) and still held at node `at`:
+        a unique_lock that was `.unlock()`ed (and not `.lock()`ed again) before `at` in source order holds nothing."""
         out = []
         if f.nodes[stmt]['k'] != 'DeclStmt':
             return out
         for v in f.kids(stmt):
             vd = f.nodes[v]
             if vd['k'] == 'VarDecl' and (vd.get('t') or '').replace('const ', '').startswith(GUARDS) and vd.get('init') is not None and vd['init'] >= 0:
+                if at is not None and not self._still_locked(f, vd.get('d'), at):
+                    continue
                 ini = f.strip(vd['init'])
                 args = [a for a in f.kids(ini) if f.nodes[a]['k'] != 'CXXDefaultArgExpr'] if f.nodes[ini]['k'] in ('CXXConstructExpr', 'CXXTemporaryObjectExpr') else [ini]
+                if any('defer_lock' in (f.nodes[f.strip(a)].get('t') or '') or 'try_to_lock' in (f.nodes[f.strip(a)].get('t') or '') for a in args):
+                    continue          # not (necessarily) locked by construction
                 for a in args:
-                    at = f.nodes[f.strip(a)].get('t') or ''
-                    if 'mutex' in at:
+                    at_ = f.nodes[f.strip(a)].get('t') or ''
+                    if 'mutex' in at_:
                         out.append(self.lock_id(f, a))
         return out
+
+    def _still_locked(self, f, guard_decl, at):
+        order = getattr(f, '_preorder', None)
+        if order is None:
+            order = {n: k for k, n in enumerate(f.walk())}
+            f._preorder = order
+        pos = order.get(at)
+        if pos is None:
+            return True
+        last = None
+        for i in f.walk():
+            nd = f.nodes[i]
+            if nd['k'] == 'CXXMemberCallExpr' and (nd.get('callee') or '').split('::')[-1] in ('unlock', 'lock', 'release') and order.get(i, 1 << 30) < pos:
+                r = f.receiver(i)
+                rn = f.nodes[f.strip(r)] if r is not None else {}
+                if rn.get('k') == 'DeclRefExpr' and rn.get('d') == guard_decl:
+                    if last is None or order[i] > last[0]:
+                        last = (order[i], (nd.get('callee') or '').split('::')[-1])
+        return last is None or last[1] == 'lock'
 
     def held_at(self, f, node):
         """Mutexes held by RAII guards lexically alive at node."""
@@ -106,9 +130,9 @@ class Locksets:
                 for s in f.kids(a):
                     if s == child:
                         break
-                    held |= set(self.guards_in(f, s))
+                    held |= set(self.guards_in(f, s, node))
             elif an['k'] in ('IfStmt', 'SwitchStmt') and an.get('init') is not None and an['init'] >= 0 and child != an['init']:
-                held |= set(self.guards_in(f, an['init']))
+                held |= set(self.guards_in(f, an['init'], node))
             child = a
         res = frozenset(held)
         self._held_cache[key] = res
@@ -235,7 +259,7 @@ class Locksets:
             if nd['k'] == 'DeclRefExpr':
                 if nd.get('g'):
                     return 'global', list(reversed(path))
-                t = nd.get('ts') or nd.get('t') or ''
+                t = self._decl_type(f, nd.get('d')) or nd.get('ts') or nd.get('t') or ''
                 if t.rstrip().endswith(('&', '*')) or nd.get('ref'):
                     return 'ptr', list(reversed(path))
                 return 'local', list(reversed(path))
@@ -245,6 +269,22 @@ class Locksets:
             if not ks:
                 return 'local', list(reversed(path))
             n = ks[0]
+
+    def _decl_type(self, f, d):
+        """Declared type of a local / parameter (a reference keeps its `&`, unlike the type of an expression naming it)."""
+        cache = getattr(f, '_decl_types', None)
+        if cache is None:
+            cache = {}
+            for p_ in f.params:
+                cache[p_.get('d')] = p_.get('t')
+            for nd in f.nodes:
+                if nd['k'] == 'VarDecl':
+                    cache[nd.get('d')] = nd.get('ts') if (nd.get('ts') or '').rstrip().endswith(('&', '*')) else nd.get('t')
+                    for b in nd.get('bindings') or []:
+                        cache[b.get('d')] = (b.get('t') or '') + (' &' if (nd.get('t') or '').rstrip().endswith('&') else '')
+            # captured variables of an enclosing function: by-reference captures are references
+            f._decl_types = cache
+        return cache.get(d)
 
     def accesses(self, r):
         """[(field path key, is_write, Fn, node, lockset)] for shared-class fields reachable from root r."""
@@ -266,6 +306,9 @@ class Locksets:
                     continue
                 if w and deref_of_pointer_field(f, i):
                     w = False     # ptr_->mutate(): the pointee is written (its own fields are analysed), the pointer field is only read
+                # it->second.field : the std::pair of a map node is only the way to the element
+                while len(path) > 1 and path[0].startswith('std::'):
+                    path = path[1:]
                 cls = path[0].rsplit('::', 1)[0]
                 if not (cls + '::').startswith(self.shared):
                     continue
